@@ -1,7 +1,7 @@
 (* C13 -- data channel lifecycle: faithful open, forward-only states.
    Property theorems only; proofs in Proof/ChanDcepP.v, Proof/ChanP.v and Proof/ChanBufP.v. *)
 From Coq Require Import ZArith List Bool.
-From AV Require Import Lib.Bytes Gen.SctpConst Model.Chan Proof.ChanDcepP Proof.ChanP Proof.ChanBufP Proof.ChanOpenP.
+From AV Require Import Lib.Bytes Gen.SctpConst Model.Chan Proof.ChanDcepP Proof.ChanP Proof.ChanBufP Proof.ChanOpenP Proof.ChanCloseP.
 Import ListNotations.
 Local Open Scope Z_scope.
 
@@ -132,6 +132,25 @@ Theorem C13_repeated_open_ignored : forall s sidv h data ok oracle, tget (table 
   hd 0 data = DATA_CHANNEL_OPEN -> 12 <= len data -> recv_dcep s sidv data ok oracle = (s, []).
 Proof. exact repeated_open_ignored. Qed.
 Print Assumptions C13_repeated_open_ignored.
+
+(* 8. close().  In ANY reachable-style state (cinv) of an established association with no stream
+   reset pending: close() on an open channel that has stream id i makes it `closing` and schedules
+   the RE-CONFIG task; the task sends an outgoing-stream reset request for exactly stream i;
+   when the peer's response arrives the channel becomes `closed` with one `close` event, the id
+   is unregistered, and a new channel may be created with id i at once. *)
+Theorem C13_close_frees_id : forall s h i, cinv s -> (h < length (chans s))%nat ->
+  ch_state (getc s h) = Open -> ch_id (getc s h) = Some i ->
+  established s = true -> rq_request s = None -> rq_queue s = [] ->
+  let s1 := fst (step s (IClose h)) in
+  let s2 := fst (step s1 ITransmitReconfig) in
+  let s3 := fst (step s2 (IResetResponse (rq_req_seq s))) in
+  ch_state (getc s1 h) = Closing /\ snd (step s (IClose h)) = [EvSchedReconfig] /\
+  snd (step s1 ITransmitReconfig) = [EvReconfigRequest (rq_req_seq s) [i]] /\
+  ch_state (getc s3 h) = Closed /\ snd (step s2 (IResetResponse (rq_req_seq s))) = [EvClose h] /\
+  tget (table s3) i = None /\
+  (forall neg ordered maxrt maxlt label proto, ~ In (EvRaise 1) (snd (create s3 neg (Some i) ordered maxrt maxlt label proto))).
+Proof. exact close_frees_id. Qed.
+Print Assumptions C13_close_frees_id.
 
 (* PARTIAL (not theorems; observed by the correspondence and the two-endpoint oracle): that
    the OPEN actually reaches the peer exactly once is C01's ordered exactly-once delivery on
